@@ -6,6 +6,7 @@ import TmVerif.Codec.Rule
 import TmVerif.Codec.Event
 import TmVerif.Codec.Payload
 import TmVerif.Codec.Ldap
+import TmVerif.Codec.LdapUpdate
 import TmVerif.Codec.Dn
 open TmVerif TmVerif.Proto TmVerif.Codec
 
@@ -211,6 +212,61 @@ def ldapDec (cls : String) (e : Entry) : Option KVs :=
   else if cls = "part" then partitionFromEntry e
   else none
 
+/-! LDAP update path: entries and modify requests travel as ORDERED lists of pairs
+    (`[[name, [values]], …]`, `[[name, [[op, [values]], …]], …]`) -/
+
+def evalsOfJ (l : List JVal) : Option (List EVal) :=
+  l.mapM (fun (x : JVal) => match x with
+    | JVal.str s => some (EVal.str s)
+    | JVal.bool b => some (EVal.bool b)
+    | _ => none)
+
+def entryOfPairs : JVal → Option Entry
+  | .arr ps => ps.mapM (fun (p : JVal) => match p with
+    | .arr [.str k, .arr l] => (evalsOfJ l).map (fun vals => (k, vals))
+    | _ => none)
+  | _ => none
+
+def pairsOfEntry (e : Entry) : JVal := .arr (e.map (fun (k, vals) => .arr [.str k, .arr (vals.map evalJ)]))
+
+def opName : ModOp → Str
+  | .add => "add".toList
+  | .delete => "delete".toList
+  | .replace => "replace".toList
+
+def opOfName (s : Str) : Option ModOp :=
+  if s = "add".toList then some .add else if s = "delete".toList then some .delete
+  else if s = "replace".toList then some .replace else none
+
+def modsToJ (ms : Mods) : JVal :=
+  .arr (ms.map (fun (k, l) => .arr [.str k, .arr (l.map (fun (op, vals) => .arr [.str (opName op), .arr (vals.map evalJ)]))]))
+
+def modsOfJ : JVal → Option Mods
+  | .arr ps => ps.mapM (fun (p : JVal) => match p with
+    | .arr [.str k, .arr l] => (l.mapM (fun (m : JVal) => match m with
+        | .arr [.str o, .arr vs] => match opOfName o, evalsOfJ vs with
+          | some op, some vals => some (op, vals)
+          | _, _ => none
+        | _ => none)).map (fun ms => (k, ms))
+    | _ => none)
+  | _ => none
+
+def strsOfJ : JVal → Option (List Str)
+  | .arr l => l.mapM (fun (x : JVal) => match x with
+    | JVal.str s => some s
+    | _ => none)
+  | _ => none
+
+/-- two values from one token stream -/
+def jvalToks2 (toks : List String) : Option (JVal × JVal) :=
+  match jvalToks 1000 toks with
+  | some (a, rest) => match jvalToks 1000 rest with
+    | some (b, []) => some (a, b)
+    | _ => none
+  | none => none
+
+def showEntry (e : Entry) : String := "ok " ++ encStr (jsonDumps (pairsOfEntry e))
+
 def stepLine (_ : Unit) (ws : List String) : Unit × String :=
   let out : String := match ws with
     | ["tob", a, b, n] =>
@@ -356,6 +412,51 @@ def stepLine (_ : Unit) (ws : List String) : Unit × String :=
         | some e => match ldapDec cls e with
           | some o => "ok " ++ encStr (jsonDumps (.obj o))
           | none => "err"
+        | none => "bad-op"
+      | _ => "bad-op"
+    | "ldapdiff" :: toks =>
+      match jvalToks2 toks with
+      | some (a, b) => match entryOfPairs a, entryOfPairs b with
+        | some old, some new => "ok " ++ encStr (jsonDumps (modsToJ (diffEntries old new)))
+        | _, _ => "bad-op"
+      | none => "bad-op"
+    | "ldapkeys" :: toks =>
+      match jvalToks 1000 toks with
+      | some (a, []) => match entryOfPairs a with
+        | some new => "ok " ++ encStr (jsonDumps (.arr ((entryPlainKeys new).map .str)))
+        | none => "bad-op"
+      | _ => "bad-op"
+    | "ldapfetch" :: toks =>
+      match jvalToks2 toks with
+      | some (a, b) => match strsOfJ a, entryOfPairs b with
+        | some attrs, some stored => showEntry (fetch attrs stored)
+        | _, _ => "bad-op"
+      | none => "bad-op"
+    | "ldapapply" :: toks =>
+      match jvalToks2 toks with
+      | some (a, b) => match entryOfPairs a, modsOfJ b with
+        | some stored, some ms => showEntry (applyMods stored ms)
+        | _, _ => "bad-op"
+      | none => "bad-op"
+    | "ldapupd" :: toks =>
+      match jvalToks2 toks with
+      | some (a, b) => match entryOfPairs a, entryOfPairs b with
+        | some stored, some new =>
+          "ok " ++ encStr (jsonDumps (.arr [modsToJ (adminUpdateMods stored new), pairsOfEntry (adminUpdate stored new)]))
+        | _, _ => "bad-op"
+      | none => "bad-op"
+    | "ldapobjupd" :: cls :: toks =>
+      match jvalToks2 toks with
+      | some (a, .obj o) => match entryOfPairs a with
+        | some stored => match ldapEnc cls o with
+          | some new => showEntry (adminUpdate stored new)
+          | none => "err"
+        | none => "bad-op"
+      | _ => "bad-op"
+    | "ldaprm" :: toks =>
+      match jvalToks 1000 toks with
+      | some (a, []) => match entryOfPairs a with
+        | some e => "ok " ++ encStr (jsonDumps (modsToJ (adminRemoveMods e)))
         | none => "bad-op"
       | _ => "bad-op"
     | _ => "bad-op"
